@@ -289,7 +289,7 @@ def run_case(ctx, tctx, chain):
         elif pk in ("long-pw", "nul-pw") and getattr(validator, "bcrypt_users", None):
             u = r.choice(sorted(validator.bcrypt_users))
             p = validator.pairs[u]
-            p = (word(r, r.choice([73, 80, 200, 255])) if r.random() < 0.5 else (p + "x" * 255)[:r.choice([73, 100, 255])]) if pk == "long-pw" else p[:2] + "\x00" + p[2:]
+            p = (word(r, r.choice([73, 80, 200, 255])) if r.random() < 0.5 else (p + "x" * 255).encode("utf-8")[:r.choice([73, 100, 255])].decode("utf-8", "ignore")) if pk == "long-pw" else p[:2] + "\x00" + p[2:]
             pk = "socks-" + pk
         else:
             pk = "wrong-pw" if validator.kind != "any" else "valid"
